@@ -72,6 +72,10 @@ def setup(ctx):
     bases = [r for r in allreq if r["id"].endswith("|base")]
     for pb in PERTURBS:
         reqs = [dict(r, predirty=pb) for r in bases]
+        if pb == PERTURBS[-1]:
+            # the last repetition visits the calls in the opposite order: whatever an earlier call of the same process may have
+            # left behind (a cache, a static buffer, a shared default object) is then left by other calls
+            reqs.reverse()
         for s in range(0, len(reqs), chunk):
             res = isolate.run_batch(ctx.lib, reqs[s:s + chunk], perturb=pb, timeout_per_call=30)
             for r, o in zip(reqs[s:s + chunk], res):
@@ -94,14 +98,108 @@ def _gen_cases(ctx):
             yield {"fn": e.name, "seed": rng.randrange(1 << 30), "idx": None, "base_only": True}
 
 
+def _scalar(v):
+    return v is None or isinstance(v, (bool, int, float, str))
+
+
+def aba_blocks(e, seed, tier):
+    """Blocks  A(v1), A(v2), A(v1), A(v3), A(v1), ...  -- one call of the function with a scalar parameter (positional or keyword)
+    at v1, then for every other value the generator produces for that parameter the call with only that parameter changed,
+    followed by the first call again.  Every block runs in a process of its own, so its first call has no history.  A function
+    of its arguments returns the same for A(v1) each time; a cache keyed by too few of the parameters, a cached object that a
+    later call modifies, or any other state kept between calls shows as a difference."""
+    draws = []
+    for i in range(6 if tier == "quick" else 12):
+        try:
+            draws.append(e.gen(random.Random(seed + i)))
+        except Exception:
+            pass
+    if not draws:
+        return []
+    args, kwargs = draws[0]
+    pools = {}
+    for a2, k2 in draws:
+        for i, v in enumerate(a2):
+            if _scalar(v) and i < len(args) and _scalar(args[i]):
+                pools.setdefault(("a", i), [])
+                if not any(v == w and type(v) is type(w) for w in pools[("a", i)]):
+                    pools[("a", i)].append(v)
+        for k, v in k2.items():
+            if _scalar(v) and k in kwargs and _scalar(kwargs[k]):
+                pools.setdefault(("k", k), [])
+                if not any(v == w and type(v) is type(w) for w in pools[("k", k)]):
+                    pools[("k", k)].append(v)
+    lay = ["C"] * len(args)
+
+    def call(kind, key, v, role):
+        a2, k2 = list(args), dict(kwargs)
+        if kind == "a":
+            a2[key] = v
+        else:
+            k2[key] = v
+        return {"fn": e.name, "args": a2, "kwargs": k2, "layouts": lay, "klayouts": {}, "role": role}
+    blocks = []
+    for (kind, key), vals in sorted(pools.items(), key=str):
+        vals = vals[:4]
+        if len(vals) < 2:
+            continue
+        for v1 in vals:
+            blk = [call(kind, key, v1, "A %s%s=%r" % (kind, key, v1))]
+            for v2 in vals:
+                if v2 == v1 and type(v2) is type(v1):
+                    continue
+                blk.append(call(kind, key, v2, "B %s%s=%r" % (kind, key, v2)))
+                blk.append(call(kind, key, v1, "A %s%s=%r" % (kind, key, v1)))
+            for i, r in enumerate(blk):
+                r["id"] = "aba%d" % i
+            blocks.append(blk)
+    return blocks
+
+
+def run_aba(ctx, e, seed):
+    from concurrent.futures import ThreadPoolExecutor
+    blocks = aba_blocks(e, seed, ctx.tier)
+    ncalls = sum(len(b) for b in blocks)
+    if not blocks:
+        return None, 0
+    with ThreadPoolExecutor(max_workers=8) as ex:
+        outs = list(ex.map(lambda blk: isolate.run_batch(ctx.lib, blk, perturb=None, timeout_per_call=30), blocks))
+    for blk, res in zip(blocks, outs):
+        first = res[0]
+        if first is None or "crash" in first or "hang" in first or first.get("exc") is not None:
+            continue
+        for i in range(2, len(blk), 2):
+            o = res[i]
+            if o is None or "crash" in o or "hang" in o:
+                return {"why": "%s crashed or hung when repeated after %s" % (e.name, blk[i - 1]["role"]), "outcome": o}, ncalls
+            if o.get("exc") is not None or not R.canon_equal(o["res"], first["res"], float_tol=False):
+                return {"why": "%s: the same call (%s) returns something else after a call that differs in one parameter (%s): the "
+                               "result depends on the calls made before it" % (e.name, blk[0]["role"], blk[i - 1]["role"]),
+                        "first": str(first["res"])[:300], "again": str(o.get("res", o.get("exc")))[:300]}, ncalls
+    return None, ncalls
+
+
 def cases(ctx):
     for ci, case in enumerate(ctx.c08_cases):
         c = dict(case)
         c["idx"] = ci
         yield c
+    rng = random.Random(ctx.seed + 88)
+    for e in R.REG:
+        if e.inplace_args:
+            continue
+        for k in range(1 if ctx.tier == "quick" else 6):
+            yield {"fn": e.name, "aba_seed": rng.randrange(1 << 30)}
 
 
 def run_case(ctx, case):
+    if "aba_seed" in case:
+        e = R.BYNAME[case["fn"]]
+        fail, n = run_aba(ctx, e, case["aba_seed"])
+        ctx.stats["aba_calls"] = ctx.stats.get("aba_calls", 0) + n
+        if fail:
+            return Result(False, True, fail)
+        return Result(True, n >= 3, None, e.name + "/aba")
     e, reqs = build_requests(case)
     ci = case.get("idx")
     out = getattr(ctx, "c08_out", None)
@@ -146,6 +244,6 @@ def run_case(ctx, case):
             if o is None or "crash" in o or "hang" in o:
                 return Result(False, True, {"why": "%s crashed or hung with MALLOC_PERTURB_=%d" % (e.name, pb), "outcome": o})
             if o.get("exc") is not None or not R.canon_equal(o["res"], base["res"], float_tol=False):
-                return Result(False, True, {"why": "%s: result depends on previous heap contents (MALLOC_PERTURB_=%d)" % (e.name, pb),
+                return Result(False, True, {"why": "%s: result depends on previous heap contents or on the calls made before it in the same process (MALLOC_PERTURB_=%d%s)" % (e.name, pb, ", calls in reverse order" if pb == PERTURBS[-1] else ""),
                                             "first": str(base["res"])[:400], "again": str(o.get("res"))[:400]})
     return Result(True, nontrivial, None, e.name + ("" if nontrivial else "/exception"))
